@@ -151,6 +151,9 @@ func (w *world) apply(op kernel.Op) {
 		if w.c.InBlock || w.c.Halted != "" {
 			return
 		}
+		if !w.slashed && (int64(w.c.Height)+op.Arg(0))%3 == 1 {
+			genfault.Restart(w.rec, w.c, "ag")
+		}
 		genfault.Run(w.rec, w.c, int64(w.c.Height)+op.Arg(0))
 		for _, is := range w.c.ModuleRoundTrip() {
 			w.rec.Violate("C13", "roundtrip", "ag:"+is.Key, "ag world: %s", is.Detail)
